@@ -986,8 +986,18 @@ int RegularExpression::getOptionValue(const XMLCh ch) {
 struct RE_RuntimeContext {
     const Op    *op_;
     XMLSize_t   offs_;
+    // for a closure that keeps its status in Context::fOffsets: the value
+    // that was stored there when this iteration of the closure was entered
+    int         prevOffs_;
 
-    RE_RuntimeContext(const Op *op, XMLSize_t offs) : op_(op), offs_(offs) { }
+    RE_RuntimeContext(const Op *op, XMLSize_t offs, int prevOffs = -1)
+        : op_(op), offs_(offs), prevOffs_(prevOffs) { }
+
+    // the iteration has ended: put the status of the closure back
+    void restoreStatus(int* const offsets) const {
+        if (op_->getOpType() == Op::O_CLOSURE && op_->getData() >= 0)
+            offsets[op_->getData()] = prevOffs_;
+    }
 };
 
 int RegularExpression::match(Context* const context, const Op* const operations,
@@ -1107,16 +1117,17 @@ int RegularExpression::match(Context* const context, const Op* const operations,
                 case Op::O_CLOSURE:
                 {
                     XMLInt32 id = tmpOp->getData();
+                    int prevOffset = -1;
                     // if id is not -1, it's a closure with a child token having a minumum length,
                     // where id is the index of the fOffsets array where its status is stored
                     if (id >= 0) {
-                        int prevOffset = context->fOffsets[id];
+                        prevOffset = context->fOffsets[id];
                         if (prevOffset < 0 || prevOffset != (int)offset) {
                             context->fOffsets[id] = (int)offset;
                         }
                         else {
                             // the status didn't change, we haven't found other copies; move on to the next match
-                            context->fOffsets[id] = -1;
+                            // (the status is left alone: the iteration that recorded it has not returned yet)
                             tmpOp = tmpOp->getNextOp();
                             break;
                         }
@@ -1124,14 +1135,16 @@ int RegularExpression::match(Context* const context, const Op* const operations,
 
                     if(opStack!=NULL)
                     {
-                        opStack->push(RE_RuntimeContext(tmpOp, offset));
+                        opStack->push(RE_RuntimeContext(tmpOp, offset, prevOffset));
                         tmpOp = tmpOp->getChild();
                     }
                     else
                     {
                         int ret = match(context, tmpOp->getChild(), offset);
                         if (id >= 0) {
-                            context->fOffsets[id] = -1;
+                            // this iteration has ended, put back the status of the one
+                            // it may be nested in (the body can lead to this closure again)
+                            context->fOffsets[id] = prevOffset;
                         }
                         if (ret >= 0)
                             doReturn = ret;
@@ -1184,20 +1197,23 @@ int RegularExpression::match(Context* const context, const Op* const operations,
             RE_RuntimeContext ctx = opStack->pop();
             tmpOp = ctx.op_;
             offset = ctx.offs_;
-            if (tmpOp->getOpType() == Op::O_CLOSURE) {
-                XMLInt32 id = tmpOp->getData();
-                if (id >= 0) {
-                    // loop has ended, reset the status for this closure
-                    context->fOffsets[id] = -1;
-                }
-            }
+            // this iteration has ended, put back the status of the closure
+            ctx.restoreStatus(context->fOffsets);
             if (tmpOp->getOpType() == Op::O_CLOSURE || tmpOp->getOpType() == Op::O_QUESTION) {
-                if (doReturn >= 0)
+                if (doReturn >= 0) {
+                    // so have the iterations that are still pending
+                    while (opStack->size() > 0)
+                        opStack->pop().restoreStatus(context->fOffsets);
                     return doReturn;
+                }
             }
             tmpOp = tmpOp->getNextOp();
         }
     }
+
+    // the end of the operations ends the iterations that are still pending
+    while (opStack != NULL && opStack->size() > 0)
+        opStack->pop().restoreStatus(context->fOffsets);
 
     return (int)offset;
 }
